@@ -76,6 +76,7 @@ Definition a_handler (kind arg : Z) (s : ast) : result ast :=
   else if kind =? 1 then
     if negb (arg =? 0) && negb (memZ arg (a_osets s)) then Err s
     else Ok {| a_tokens := a_tokens s; a_nonce := a_nonce s; a_pending := a_pending s; a_osets := a_osets s; a_lastoset := arg |}
+  else if kind =? 3 then Err s     (* MsgBridgeTokenClaim with symbol FX and the wrong decimals: refused *)
   else Ok {| a_tokens := a_tokens s; a_nonce := a_nonce s; a_pending := arg :: a_pending s; a_osets := a_osets s; a_lastoset := a_lastoset s |}.
 
 Definition a_mark (n : Z) (s : ast) : ast :=
